@@ -181,3 +181,15 @@ package stage
 
 //@ func (*Stage).finalizeHandler
 //@   before call (*Stage).finalize assert finalize-needs-ready: called((*Stage).isFileReady) && lastret((*Stage).isFileReady, 0) && lastarg((*Stage).isFileReady, 1) == arg1
+
+//@ func (*Stage).fromWait
+//@   ensures returns-and-clears: !has(s.wait, prevPath) && (old(has(s.wait, prevPath)) ==> unchanged(s.wait[prevPath]) && result == old(s.wait[prevPath])) && (!old(has(s.wait, prevPath)) ==> len(result) == 0)
+//@   modifies entries(s.wait)
+
+//@ func (*Stage).detectWaitLoop
+//@   on return assert loop-needs-back-reference: len(loop) > 0 ==> f != nil && f.path == prevPath && has(s.wait, p)
+
+//@ func (*Stage).cleanWaiting
+//@   before call (*Stage).fromWait assert order-dropped-only-on-loop: called((*Stage).detectWaitLoop) && len(lastret((*Stage).detectWaitLoop, 0)) > 0 && arg1 == lastarg((*Stage).detectWaitLoop, 1)
+//@   before go (*Stage).finalizeQueue assert order-dropped-only-on-loop: called((*Stage).fromWait) && called((*Stage).detectWaitLoop) && len(lastret((*Stage).detectWaitLoop, 0)) > 0
+//@   before go (*Stage).finalizeQueue assert releases-validated-only: f != nil && f.state == stateValidated && arg1 == f
